@@ -167,6 +167,32 @@ fn decision_automaton(run: &mut Run, tier: Tier, prop: &str) {
     let th = meter::threads();
     const B: usize = 128 * 1024;
     let mut gens: Vec<(String, Vec<u8>)> = vec![("rle".into(), vec![0x55; B]), ("incompressible".into(), unique(B, 1)), ("text".into(), text_like(B, 3)), ("few literals many matches".into(), (0..B).map(|i| (i % 23) as u8).collect()), ("skewed 60 symbols".into(), skewed(B, 60, 9)), ("skewed 60 symbols again".into(), skewed(B, 60, 10))];
+    // table reuse decisions: the same distribution with one extra rare symbol inside / above the previous symbol
+    // range, with one symbol missing, and with a mildly different skew (code lengths differ by a few bits)
+    {
+        let base = skewed(B, 60, 9);
+        let syms: Vec<u8> = {
+            let mut v = base.clone();
+            v.sort();
+            v.dedup();
+            v
+        };
+        let inner_unused = (1..255u8).find(|b| !syms.contains(b) && *b > syms[0] && *b < syms[syms.len() - 1]).unwrap();
+        let mut with_inner = base.clone();
+        with_inner[B / 3] = inner_unused;
+        gens.push(("skewed 60 symbols + one rare symbol inside the range".into(), with_inner));
+        let mut with_outer = base.clone();
+        with_outer[B / 3] = 255.max(syms[syms.len() - 1]);
+        if !syms.contains(&255) {
+            gens.push(("skewed 60 symbols + one rare symbol above the range".into(), with_outer));
+        }
+        let rare = *syms.iter().min_by_key(|s| base.iter().filter(|b| *b == *s).count()).unwrap();
+        let common = *syms.iter().max_by_key(|s| base.iter().filter(|b| *b == *s).count()).unwrap();
+        gens.push(("skewed 60 symbols with the rarest symbol removed".into(), base.iter().map(|b| if *b == rare { common } else { *b }).collect()));
+        gens.push(("skewed 59 symbols".into(), skewed(B, 59, 9)));
+        gens.push(("skewed 61 symbols".into(), skewed(B, 61, 9)));
+        gens.push(("skewed 60 symbols, two ranks swapped".into(), base.iter().map(|b| if *b == syms[3] { syms[4] } else if *b == syms[4] { syms[3] } else { *b }).collect()));
+    }
     // the marginal band: near-uniform blocks over 254/255 symbols, where the Huffman coder gains a few dozen bytes
     // at most; a few planted 5-byte matches and a small skew decide whether the block as a whole is still smaller
     let boosts: Vec<usize> = tier.pick(vec![0, 10, 20, 30, 40, 50, 60, 100, 2000], vec![0, 2, 4, 6, 8, 10, 12, 15, 18, 21, 25, 30, 35, 40, 45, 50, 60, 80, 100, 500, 2000]);
